@@ -1,7 +1,8 @@
 (** C20: query-log files are read backwards completely; timestamp seeks land
     on the entry.  Only statements here; proofs live in Proofs/QLogFile.v. *)
-From Coq Require Import ZArith List.
-From AGH Require Import Model.QLogFile Proofs.QLogFile Proofs.QLogFileAbsent.
+From Coq Require Import ZArith List String.
+From AGH Require Import Base.Run Model.QLogFile Model.QLogCodec Model.QLogBytes
+  Proofs.QLogFile Proofs.QLogFileAbsent Proofs.QLogCodec Proofs.QLogCodecLoc Proofs.QLogBytes Proofs.QLogStamp.
 Import ListNotations.
 Local Open Scope Z_scope.
 
@@ -188,3 +189,143 @@ Example C20_two_files_seek_absent_example :
   fst (reader_seek_ts 8 13 (new_reader [old; cur])) = RFound.
 Proof. exact reader_absent_example. Qed.
 Print Assumptions C20_two_files_seek_absent_example.
+
+(** * Byte level (round 4)
+
+    Model/QLogBytes.v runs the loops of qlogfile.go on the BYTES of a file:
+    Seek + Read into the 1.6 MB / 32 KiB buffers, the index-by-index scans for
+    a line break (both ways in readProbeLine), the "T" marker search of
+    readQLogTimestamp up to the next quote byte; time.Parse is the oracle
+    [o].  A file is [flat ls]: the lines [ls], each followed by a line break.
+    [absf o ls] is its (length, stamp) view, the input of the theorems above. *)
+
+(** ReadNext on the bytes, for EVERY file of break-free lines (any lengths)
+    and every reader state inside the file: it returns the bytes of the span
+    the (length, stamp) model returns and leaves the same state. *)
+Theorem C20_bytes_read_next_refines : forall o me buf (ls : list bytes) (s : rstate),
+  0 < me <= buf -> Forall nlfree ls -> st_ok buf (flat ls) s ->
+  b_read_next me buf (flat ls) s =
+    (lift_read (flat ls) (fst (read_next me buf (absf o ls) s)), snd (read_next me buf (absf o ls) s))
+  /\ st_ok buf (flat ls) (snd (read_next me buf (absf o ls) s)).
+Proof. exact b_read_next_refines. Qed.
+Print Assumptions C20_bytes_read_next_refines.
+
+(** seekTS on the bytes (probe-line extraction scanning both ways inside the
+    32 KiB window, stamp extraction from the line's bytes) = seekTS of the
+    (length, stamp) model, for lines shorter than the entry limit: the
+    theorems C20_seek_* transfer. *)
+Theorem C20_bytes_seek_refines : forall o me (ls : list bytes) ts,
+  0 < me -> blines_ok me ls ->
+  b_seek_ts o me (flat ls) ts = seek_ts me (absf o ls) ts.
+Proof. exact b_seek_ts_refines. Qed.
+Print Assumptions C20_bytes_seek_refines.
+
+(** C20_reverse_complete on the bytes: SeekStart, then ReadNext until io.EOF,
+    returns the very lines, last first, each once, then io.EOF. *)
+Theorem C20_bytes_reverse_complete : forall me buf (ls : list bytes) (s0 : rstate),
+  0 < me <= buf -> blines_ok me ls -> 0 <= buf_start s0 ->
+  b_read_all me buf (flat ls) (S (length ls)) (b_seek_start (flat ls) s0) = (rev ls, true).
+Proof. exact b_reverse_complete. Qed.
+Print Assumptions C20_bytes_reverse_complete.
+
+(** C20_seek_present + C20_seek_then_read on the bytes: seeking the stamp
+    readQLogTimestamp reads from a stored line finds that line, and the next
+    ReadNext returns its bytes. *)
+Theorem C20_bytes_seek_present_then_read : forall o me buf (ls : list bytes) k ln (s : rstate),
+  0 < me <= buf -> blines_ok me ls ->
+  stamps_nonzero (absf o ls) -> sorted_ts (absf o ls) -> size_ok (absf o ls) ->
+  nth_error ls k = Some ln -> 0 <= buf_start s ->
+  exists d s',
+    b_seek_ts_state o me (flat ls) (read_qlog_ts o ln) s = (Found (St (absf o ls) k + blen ln) d, s') /\
+    fst (b_read_next me buf (flat ls) s') = Some (ln, St (absf o ls) k).
+Proof. exact b_seek_present_then_read. Qed.
+Print Assumptions C20_bytes_seek_present_then_read.
+
+(** C20_seek_absent on the bytes. *)
+Theorem C20_bytes_seek_absent : forall o me (ls : list bytes) ts r,
+  0 < me -> blines_ok me ls ->
+  stamps_nonzero (absf o ls) -> sorted_ts (absf o ls) -> size_ok (absf o ls) -> ls <> [] ->
+  (r <= length ls)%nat ->
+  (forall k ln, nth_error ls k = Some ln -> (k < r)%nat -> read_qlog_ts o ln < ts) ->
+  (forall k ln, nth_error ls k = Some ln -> (r <= k)%nat -> ts < read_qlog_ts o ln) ->
+  b_seek_ts o me (flat ls) ts =
+    if Nat.eqb r 0 then TooEarly else if Nat.eqb r (length ls) then TooLate else NotFound.
+Proof. exact b_seek_absent. Qed.
+Print Assumptions C20_bytes_seek_absent.
+
+Theorem C20_bytes_seek_failed_keeps_position : forall o me (c : bytes) ts (s : rstate),
+  (forall p d, b_seek_ts o me c ts <> Found p d) -> pos (snd (b_seek_ts_state o me c ts s)) = pos s.
+Proof. exact b_seek_failed_keeps_position. Qed.
+Print Assumptions C20_bytes_seek_failed_keeps_position.
+
+Example C20_bytes_example :
+  let ls := [ex_T 1; ex_T 3; ex_T 5] in
+  blines_ok 64 ls /\ stamps_nonzero (absf ex_oracle ls) /\ size_ok (absf ex_oracle ls) /\
+  map (read_qlog_ts ex_oracle) ls = [1; 3; 5] /\
+  b_seek_ts ex_oracle 64 (flat ls) 3 = Found 55 0 /\
+  b_seek_ts ex_oracle 64 (flat ls) 4 = NotFound /\
+  b_seek_ts ex_oracle 64 (flat ls) 0 = TooEarly /\
+  b_seek_ts ex_oracle 64 (flat ls) 6 = TooLate /\
+  b_read_all 64 6400 (flat ls) 4 (b_seek_start (flat ls) rstate0) = (rev ls, true).
+Proof. exact b_seek_example. Qed.
+Print Assumptions C20_bytes_example.
+
+(** * The stamp field of a line json.Marshal wrote
+
+    [encode] is the model of json.Marshal of logEntry (C07's codec, tied to
+    the real encoder by C07's correspondence).  readQLogTimestamp takes the
+    text after the FIRST occurrence of the marker; whatever the host, client
+    id, upstream, rule texts ... hold (marker-like text, a complete decoy
+    stamp field, backslashes at the end of a value), that occurrence is the T
+    field, because every quote byte inside a value is written behind a
+    backslash. *)
+Theorem C20_stamp_field_of_marshalled_line : forall (o : bytes -> Z) (e : centry),
+  time_text (slot e sT) = true -> slot e sT <> [] ->
+  read_qlog_ts o (encode e) = o (slot e sT).
+Proof. exact read_qlog_ts_encode. Qed.
+Print Assumptions C20_stamp_field_of_marshalled_line.
+
+(** Not a matter of T standing first: any string fields under other keys,
+    with any values, may stand before it (legacy files write IP first). *)
+Theorem C20_stamp_field_behind_string_fields : forall (kvs : list (bytes * bytes)) post s,
+  Forall (fun kv => forallb no34 (fst kv) = true /\ fst kv <> kT) kvs ->
+  located (obj (map (fun kv => 34%N :: fst kv ++ 34%N :: 58%N :: quote (snd kv)) kvs ++ fld "T"%string (quote s) :: post)) pT s.
+Proof. exact located_T_behind_strings. Qed.
+Print Assumptions C20_stamp_field_behind_string_fields.
+
+(** The escaping is what it rests on: with the marker-holding values of
+    [decoy_entry] in host / client id / upstream / rule text and a host ending
+    in a backslash, the real escaping reads T; a writer copying values as they
+    are lets an earlier field capture the stamp. *)
+Example C20_stamp_field_decoys :
+  let e1 := decoy_entry decoy in
+  let e2 := decoy_entry (B "x\"%string) in
+  let e3 := decoy_entry (B "\\""T"":""2001-01-01T00:00:00Z"%string) in
+  time_text (slot e1 sT) = true /\
+  read_qlog_ts ex_o (encode e1) = 1709294400500000000 /\
+  read_qlog_ts ex_o (encode e2) = 1709294400500000000 /\
+  read_qlog_ts ex_o (encode e3) = 1709294400500000000.
+Proof. exact read_qlog_ts_decoys. Qed.
+Print Assumptions C20_stamp_field_decoys.
+
+Example C20_stamp_field_unescaped_writer_refuted :
+  let line := obj [fld "QH"%string (raw_quote decoy); fld "T"%string (quote (B "2024-03-01T12:00:00.5Z"%string))] in
+  read_qlog_ts ex_o line = 978307200000000000.
+Proof. exact unescaped_writer_refuted. Qed.
+Print Assumptions C20_stamp_field_unescaped_writer_refuted.
+
+(** A marshalled line holds no line break (control characters are escaped),
+    so a file of marshalled entries shorter than the entry limit is a file
+    the byte-level theorems speak about, with time.Parse of the T fields as
+    its stamps. *)
+Theorem C20_marshalled_line_no_line_break : forall e, rw_numbers_ok e -> nlfree (encode e).
+Proof. exact encode_nlfree. Qed.
+Print Assumptions C20_marshalled_line_no_line_break.
+
+Theorem C20_marshalled_file : forall (o : bytes -> Z) me (es : list centry),
+  Forall (fun e => rw_numbers_ok e /\ blen (encode e) < me) es ->
+  Forall (fun e => time_text (slot e sT) = true /\ slot e sT <> []) es ->
+  blines_ok me (map encode es) /\
+  absf o (map encode es) = map (fun e => (blen (encode e), o (slot e sT))) es.
+Proof. exact encoded_file. Qed.
+Print Assumptions C20_marshalled_file.
